@@ -2,8 +2,8 @@
    Only ExtrOcamlBasic's directives are used; numbers stay as extracted inductives. *)
 Require Extraction.
 Require Import ExtrOcamlBasic.
-From RxModel Require Import Derived Ops2 Subject GroupBy Flatten Timed Async Subscr.
-From RxSpec Require Import DerivedSpec Ops2Spec SubjectSpec BehaviorSpec GroupBySpec FlattenSpec TimedSpec SubscrSpec.
+From RxModel Require Import Derived Ops2 Subject GroupBy Flatten Timed Async Subscr Finalize.
+From RxSpec Require Import DerivedSpec Ops2Spec SubjectSpec BehaviorSpec GroupBySpec FlattenSpec TimedSpec SubscrSpec FinalizeSpec.
 Extraction Language OCaml.
 Extraction "model.ml"
   apply_fn apply_fn2 pred_of opt_of
@@ -15,4 +15,5 @@ Extraction "model.ml"
   run_flatten downstream peak_ok subs_increasing completion_ok silent_after_unsub
   run_timed raw_ok timed_ok prompt_case remaining closed_sound_ok
   run_async yields pendings
-  crun cstate0 alg_ok.
+  crun cstate0 alg_ok
+  run_finalize_segs fin_ok fspec0 rrun.
